@@ -91,6 +91,9 @@ struct Sess : SessBase
   std::string handle(const Toks & t) override
   {
     const std::string & op = t[0];
+    // VALUE SEMANTICS: every fifth op the caster is replaced by a copy of itself and the original destroyed (its whole traversal
+    // state — origin, end, per-axis crossing parameters, remaining counts — is copied)
+    { static unsigned long ops = 0; if (++ops % 5 == 0) { std::unique_ptr<Caster> c(new Caster(*caster)); caster = std::move(c); } }
     if (op == "ray.origin" && t.size() == 1 + D) {
       P p = parseP(t, 1); if (!inside(p)) { throw vp::BadOp(); }
       caster->setOriginPoint(p);
